@@ -382,6 +382,53 @@ def t40():
         return lst
     r = mod(a, 7)
     return a, b, c, x, y, r
+
+class Lazy:
+    def __init__(self, a, b):
+        self.a, self.b = a, b
+    def __set_name__(self, owner, name):
+        self.cache = "_" + name
+    def __get__(self, obj, objtype=None):
+        if obj is None:
+            return self
+        if getattr(obj, self.cache) is None:
+            setattr(obj, self.cache, getattr(obj, self.a) * getattr(obj, self.b))
+        return getattr(obj, self.cache)
+class Pw:
+    def __init__(self, v):
+        self.A1 = v
+        self._A2 = None
+        self._A3 = None
+    def _one(self):
+        return ("one", self.A1)
+    def _two(self):
+        return ("two", self.A2)
+    A2 = Lazy("A1", "A1")
+    A3 = Lazy("A2", "A1")
+    TABLE = (("a", _one), ("b", _two))
+    def pick(self, key):
+        for name, fn in self.TABLE:
+            if key == name:
+                return fn(self)
+        return None
+def t50():
+    p = Pw(3)
+    return p.A3, p.A2, p._A2, p.pick("b"), p.pick("a"), p.pick("z")
+def t51():
+    b, p, q = (1, 2), (3, 4), (5, 6)
+    out = []
+    for c in (b, p, q):
+        if c is b:
+            out.append(("first", c[0]))
+            out.append(("again", c[1]))
+        else:
+            out.append(("other", c[0] + c[1]))
+    k = []
+    for i in range(5, 0, -1):
+        k.append(i)
+    for i in range(3, 9, 1):
+        k.append(i)
+    return out, k, [] is [], (b is b), 0.5 ** 2, 4 ** -1
 '''
 
 
